@@ -122,7 +122,7 @@ CLAIMED["C18"] = {
 CLAIMED["C14"] = {
     "text": "Frame and functional-dependence contracts on the real ReceptorEstimator, executed from an ARBITRARY well-formed symbolic state (one fresh symbol per registered field, A tied to filters/sources by the invariant, plus a planted non-view attribute): each of 16 queries writes no attribute, leaves every attribute element-wise identical, reads view attributes only (a cache or stale copy would be a non-view read) and leaves caller arrays untouched; each of 13 mutator variants writes exactly its declared fields with values that are functions of its arguments and the view (whole-view postcondition: everything else identical; add/replace variants of both adaptations; register_targets stores a copy); every ordered pair (thorough: a third of all triples) of 8 mutators from an arbitrary state ends field by field in the state a stateless last-writer reference model predicts.",
     "design_ref": "DESIGN.md section 6 C14",
-    "note": A_COMMON + " Heavy callees (fitting / gamut / sampling routines) are recording stubs here; that their answers are functions of the arguments handed over is what the dispatch contracts of C03-C13 establish. Histories are exhaustive to length 2 (quick) / sampled at length 3 (thorough); longer histories follow by induction from the frame + mutator contracts (argued in DESIGN.md, not machine-checked).",
+    "note": A_COMMON + " Heavy callees (fitting / gamut / sampling routines) are recording stubs here; that their answers are functions of the arguments handed over is what the dispatch contracts of C03-C13 establish. Histories are exhaustive to length 2 (quick) / sampled at length 3 (thorough); longer histories follow by induction from the frame + mutator contracts (argued in DESIGN.md, not machine-checked). BOUNDED stand-in (never counted as proved): random histories of length 12 over the full alphabet incl. fit() on the real unpatched estimator, compared step by step with a fresh estimator built from the reference model's registered values; it exhibits the recorded known finding C14-refit-uses-fitted-captures (see known_findings.json).",
     "technique": "contract-based deductive verification: frame conditions and whole-view postconditions on every method from an arbitrary symbolic state, attribute read/write tracking, pairwise mutator induction step",
 }
 
